@@ -132,6 +132,26 @@ def _run_shard(job):
         anns = {d: Float[Duck2, d] for d in dims}
         mkval = Duck
         force_false = True
+    elif variant == "protocol":
+        # an array type whose isinstance test depends on the INSTANCE, not on its class: a
+        # runtime-checkable Protocol with data members; tagged and untagged objects of one class
+        import typing
+
+        @typing.runtime_checkable
+        class Tagged(typing.Protocol):
+            shape: tuple
+            dtype: str
+            tag: int
+
+        class PDuck:
+            def __init__(self, shape, tagged=True):
+                self.shape, self.dtype = tuple(shape), "float32"
+                if tagged:
+                    self.tag = 1
+
+        anns = {d: Float[Tagged, d] for d in dims}
+        mkval = PDuck
+        untagged = lambda sh: PDuck(sh, tagged=False)
     elif variant.startswith("nested:"):
         # D[D[Duck, inner], outer] with dims = outer + inner split after `k` tokens (k < 0: from the
         # end): documented to mean exactly D[Duck, 'outer inner']
@@ -209,8 +229,19 @@ def _run_shard(job):
                     d, sh = todo[pos]
                     pos += 1
                     n += 1
+                    if variant == "protocol" and pos % 2:
+                        # an object of the same CLASS that is not an instance of the array type
+                        r0 = adapter.check(untagged(sh), anns[d])
+                        if r0 is not False or adapter.read_state() != base:
+                            viols.append(Violation(key=f"C01:array-type-instance-dependent:{d}", what=f"history={hist} check {d!r} on an object of shape {sh} that is NOT an instance of the array type (runtime-checkable Protocol, member missing): verdict {r0!r}", replay=dict(kind="transition", history=hist, args=args, dims=d, shape=list(sh), variant=variant)))
+                            return
                     got = adapter.check(vals[sh], anns[d])
                     after = adapter.read_state()
+                    if variant == "protocol" and not pos % 2 and not (after != base):
+                        r0 = adapter.check(untagged(sh), anns[d])
+                        if r0 is not False or adapter.read_state() != base:
+                            viols.append(Violation(key=f"C01:array-type-instance-dependent:{d}", what=f"history={hist} check {d!r} on an object of shape {sh} that is NOT an instance of the array type (runtime-checkable Protocol, member missing), right after an instance of the same class was checked: verdict {r0!r}", replay=dict(kind="transition", history=hist, args=args, dims=d, shape=list(sh), variant=variant)))
+                            return
                     if force_false:
                         exp, rnew, allowed = False, rbase, {False}
                     else:
@@ -458,7 +489,7 @@ def run(ctx):
     car_states = [s for s in st_list if len(s[0]) <= 1][::2] + [s for s in st_list if len(s[0]) == 2][:: (9 if ctx.quick else 3)]
     car_shapes = [sh for sh in shapes_small() if 0 not in sh or len(sh) <= 2]
     variants = ["np", "any", "wrongclass", "dtype:Float:float16:1", "dtype:Float:int32:0", "dtype:Int:int32:1", "dtype:Int:float32:0", "dtype:Num:bool:0", "dtype:Shaped:bool:1"]
-    variants += ["nested:Float:1", "nested:Shaped:-1"]
+    variants += ["nested:Float:1", "nested:Shaped:-1", "protocol"]
     if ctx.thorough:
         variants += ["nested:Float:-1", "nested:Shaped:1", "jax", "dtype:Float:bfloat16:1", "dtype:Complex:float32:0", "dtype:Inexact:complex64:1"]
     for v in variants:
